@@ -170,3 +170,23 @@ Proof.
   destruct on; [rewrite nmem_nunion; reflexivity|rewrite nmem_ndiff; change (nmem DECOM [DECOM]) with true; rewrite andb_false_r; reflexivity].
 Qed.
 End S.
+
+(* DECCOLM round trip: SM ?3 then RM ?3 returns to the previous width (erased, homed), whatever the width was *)
+Section RT.
+Variable wid : cp -> N. Variable is_comb : cp -> bool. Variable nfc : str -> str.
+Lemma c12_deccolm_round_trip a : AWF a -> ASC a ->
+  let a2 := a_set_mode (a_set_mode a [3] true true) [3] true false in
+  a_cols a2 = a_cols a /\ a_lines a2 = a_lines a /\ a_savedcols a2 = None /\
+  (forall r c, r < a_lines a -> a_grid a2 r c = aattr a) /\ aattr a2 = aattr a /\ ax a2 = 0.
+Proof.
+  intros W SC. cbv zeta.
+  assert (E : enc [3] true = [DECCOLM]) by reflexivity.
+  destruct (c12_deccolm_set a true [3] W E) as [s1 [s2 [s3 [s4 [s5 [s6 [s7 s8]]]]]]].
+  set (a1 := a_set_mode a [3] true true) in *.
+  destruct (awf_astep wid is_comb nfc a (OSm [3] true) W SC I) as [W1 SC1]. change (astep wid is_comb nfc a (OSm [3] true)) with a1 in W1, SC1.
+  destruct (c12_deccolm_reset a1 true [3] W1 SC1 E) as [r1 [r2 [r3 [r4 [r5 [r6 [r7 r8]]]]]]].
+  rewrite s1, s3 in r1. rewrite s1 in r2. cbn [N.eqb Pos.eqb] in r1, r2.
+  repeat split; try congruence.
+  intros r c Hr. rewrite r4 by (rewrite s2; exact Hr). exact s5.
+Qed.
+End RT.
